@@ -11,7 +11,7 @@ structure State where
   pipes : List OutPipe := []
   sendQLen : Nat := 128
   closed : Bool := false
-deriving Repr
+deriving Repr, BEq
 
 def init : State := {}
 
